@@ -280,6 +280,11 @@ type havocEvent struct {
 	Patterns  []string // display-key globs; nil = everything
 	Except    []string
 	Watermark *Term
+	// KeepFrom: the havocked code cannot reach objects allocated by this unit (references >= KeepFrom) other than
+	// the ones handed to it (KeepExcept): their cells keep the values recorded in Prev
+	KeepFrom   *Term
+	KeepExcept []*Term
+	Prev       map[string]*Term
 }
 
 type HeapView struct {
@@ -685,10 +690,15 @@ func (st *State) heapGet(h *HeapView, key string, s Sort, isRef bool) *Term {
 	st.keyInfo(key, s, isRef)
 	epoch := 0
 	var wm *Term
+	var keepEv *havocEvent
 	for i := 0; i < h.logLen && i < len(st.havocLog); i++ {
 		if st.havocLog[i].matches(key) {
 			epoch = st.havocLog[i].ID
 			wm = st.havocLog[i].Watermark
+			keepEv = nil
+			if st.havocLog[i].KeepFrom != nil {
+				keepEv = &st.havocLog[i]
+			}
 		}
 	}
 	name := key
@@ -706,8 +716,34 @@ func (st *State) heapGet(h *HeapView, key string, s Sort, isRef bool) *Term {
 	if fresh && (strings.HasSuffix(key, "$l") || strings.HasSuffix(key, "$c")) {
 		st.nonNegAxiom(t)
 	}
+	if fresh && keepEv != nil && s.IsArray() {
+		if prev, ok := keepEv.Prev[key]; ok && (strings.HasPrefix(key, "F|") || strings.HasPrefix(key, "B|") || strings.HasPrefix(key, "E|") || strings.HasPrefix(key, "MH|") || strings.HasPrefix(key, "MV|")) {
+			if i1, _ := s.ArrayParts(); i1 == SInt {
+				v := Const("i!qkeep", SInt)
+				conds := []*Term{Ge(v, keepEv.KeepFrom)}
+				for _, x := range keepEv.KeepExcept {
+					conds = append(conds, Neq(v, x))
+				}
+				st.assume(Forall([]*Term{v}, Implies(And(conds...), Eq(Select(t, v), Select(prev, v))), Select(t, v)))
+			}
+		}
+	}
 	h.vers[key] = t
 	return t
+}
+
+// havocKeeping is havoc for code that cannot reach the objects this unit allocated itself (see havocEvent.KeepFrom).
+func (st *State) havocKeeping(patterns []string, keepFrom *Term, except []*Term) {
+	prev := map[string]*Term{}
+	probe := havocEvent{Patterns: patterns}
+	for k, v := range st.heap.vers {
+		if probe.matches(k) {
+			prev[k] = v
+		}
+	}
+	st.havoc(patterns, nil)
+	ev := &st.havocLog[len(st.havocLog)-1]
+	ev.KeepFrom, ev.KeepExcept, ev.Prev = keepFrom, except, prev
 }
 
 // nonNegAxiom: slice headers stored in the heap have non-negative length, offset and capacity.
